@@ -6,6 +6,25 @@
 // in-process for every endpoint as the start and several option sets.
 // Oracles: a PlantUML-sequence reader (reader.go) and a reference walk over the
 // generator's own description (ref.go).
+//
+// Known defect of the pinned tree found by this check (signature
+// `read|active|after-deactivate-on-return-of-in-progress-call`): in
+// pkg/cmdutils/visitor.go visitEndpoint, a call to an endpoint that is already in progress
+// (recursion cut, upto == nil) and has a non-primitive return payload runs
+// v.w.Deactivate(agent) without a preceding Activate; the activation of the expansion still
+// in progress is closed and the participant then sends calls while inactive. Reproducer:
+//
+//	A:
+//	    E1:
+//	        . <- E1
+//	        B <- F1
+//	        return ok <: Resp
+//	B:
+//	    F1:
+//	        return ok <: string
+//
+// with `sysl sd -s "A <- E1"`. Smallest repair: call v.w.Deactivate(agent) in that branch
+// only `if upto != nil`.
 package c13
 
 import (
@@ -44,7 +63,7 @@ func (prop) Cases(tier string) int {
 func (prop) Info() fw.Info {
 	return fw.Info{
 		Level: "exploration",
-		Rule: "case i = one random model from PRNG(seed,i): 1-6 applications x 1-4 simple endpoints whose statements are calls (`App <- Ep`, `. <- Ep`), actions and returns at any position, nested to depth <= 3 in if / else if / else, for, for each, loop, while, until, alt, `one of` cases and groups; random call edges plus planted self calls, 2- and 3-cycles, diamonds and repeated calls; some endpoints without statements; all calls resolve. The model is compiled by the real parser and the sequence diagram is generated in-process (the `sysl sd` library path) for EVERY endpoint as the start x {no options; 0-2 blackbox targets; --groupby owner; blackboxes and groupby}. Each diagram is read line by line by an independent PlantUML-sequence reader (declarations, activation pairing, senders active, blocks closed) and its call arrows are compared with a reference walk of the generator's description. Non-trivial: >= 3 call statements and (a call cycle or a call nested in a block); distinct by hash of the model text.",
+		Rule:  "case i = one random model from PRNG(seed,i): 1-6 applications x 1-4 simple endpoints whose statements are calls (`App <- Ep`, `. <- Ep`), actions and returns at any position, nested to depth <= 3 in if / else if / else, for, for each, loop, while, until, alt, `one of` cases and groups; random call edges plus planted self calls, 2- and 3-cycles, diamonds and repeated calls; some endpoints without statements; all calls resolve. The model is compiled by the real parser and the sequence diagram is generated in-process (the `sysl sd` library path) for EVERY endpoint as the start x {no options; 0-2 blackbox targets; --groupby owner; blackboxes and groupby}. Each diagram is read line by line by an independent PlantUML-sequence reader (declarations, activation pairing, senders active, blocks closed) and its call arrows are compared with a reference walk of the generator's description. Non-trivial: >= 3 call statements and (a call cycle or a call nested in a block); distinct by hash of the model text.",
 		Assumptions: []string{
 			"the real parser turns the rendered text into the module the description means (that is property C02's subject); a divergence would show here as an arrow mismatch",
 			"`participant <alias>` inside `box ... end box` places an already declared participant and is not a second declaration (this is how --groupby is written by design); head lines `<kind> \"label\" as <alias>` are the declarations",
